@@ -686,6 +686,21 @@ Proof.
   inversion Hdec; subst. exists name, gm. repeat split; assumption.
 Qed.
 
+Definition C03_cpu_statement (tbl : list tbl_entry) (modes : list (string * Z)) (methods : list desc) : Prop :=
+  forall d, In d methods ->
+  forall args m16 x16 rest mn mode v len,
+    decode m16 x16 (emit_bytes d args ++ rest) = Some (mn, mode, v, len) ->
+    exists name gm,
+      tbl_decode tbl modes m16 x16 (emit_bytes d args ++ rest) = Some (name, gm, v, len) /\
+      mn_eqb mn (upper name) = true /\ go_mode_compat gm mode = true.
+
+Theorem C03_cpu_generic : forall tbl modes methods,
+  forallb (cpu_ok tbl modes) methods = true -> C03_cpu_statement tbl modes methods.
+Proof.
+  intros tbl modes methods H d Hin. rewrite forallb_forall in H.
+  apply cpu_table_decodes. exact (H d Hin).
+Qed.
+
 (* ------------------------------------------------------------------ the tie's shortcut is sound *)
 Lemma state_indep_run : forall tk ks d args fl h,
   state_indep d = true ->
